@@ -136,7 +136,19 @@ def rule_integer(ctx):
                 interp_.raise_("cutplace.errors.RangeValueError", Opaque("str", True))
 
         cell_text = AText(AText.TEXT, "cell")
-        interp = Interp(model, ch, externals={"int": int_hook})
+        asked = {}
+
+        def contains_hook(interp_, args, kwargs):
+            # the only thing the code may ask about the characters of the cell: does it hold an underscore (PEP 515
+            # digit grouping, which int() accepts and data do not use); such a cell is no integer literal
+            container, item = args
+            if container is cell_text and item == "_":
+                if "underscore" not in asked:
+                    asked["underscore"] = ch.choose("cell contains an underscore", [False, True])
+                return asked["underscore"]
+            raise Undecided("membership test %r in %r" % (item, container))
+
+        interp = Interp(model, ch, externals={"int": int_hook, "contains": contains_hook})
         field = Obj(model.cls(FIELDS + "IntegerFieldFormat"), {"valid_range": Obj(model.cls("cutplace.ranges.Range"), {"validate": validate}),
                                                               "_field_name": "n"})
         try:
@@ -144,6 +156,8 @@ def rule_integer(ctx):
             outcome = "number" if result is number else repr(result)
         except AbsRaise as raised:
             outcome = "raise " + exc_name(raised.value)
+        if asked.get("underscore"):
+            return ("int=%s range=%s, cell with an underscore" % (conversion, verdict), outcome, "raise FieldValueError")
         expected = "number" if (conversion == "number" and verdict == "inside") else "raise FieldValueError"
         if conversion == "number" and (len(seen) != 2 or seen[0] is not cell_text or seen[1] is not number):
             outcome = "int()/range called with %r" % (seen,)
@@ -683,6 +697,60 @@ def rule_choice_constant_rules(ctx):
     decide(ctx, "O2.9", "text of a rule token", "cutplace._tools.token_text", token_text_cell, min_cells=16)
 
 
+NUMBER_SPELLINGS = [
+    # (field type, cell, the number it denotes or None: "an integer literal" / "a number written with the separators")
+    ("Integer", "10", 10), ("Integer", "-5", -5), ("Integer", "+7", 7), ("Integer", "007", 7), ("Integer", "x", None), ("Integer", "1.0", None),
+    ("Integer", "0x10", None), ("Integer", "1e3", None),
+    # digit grouping with underscores is Python source syntax (PEP 515), no way to write a number in data
+    ("Integer", "1_0", None), ("Integer", "+1_2", None), ("Integer", "1_000_000", None),
+    ("Decimal", "1.5", "1.5"), ("Decimal", "-0.25", "-0.25"), ("Decimal", "10", "10"), ("Decimal", "x", None),
+    ("Decimal", "1_0.5", None), ("Decimal", "1.2_5", None), ("Decimal", "1_000", None),
+]
+
+
+def rule_number_spellings(ctx):
+    """O2.10: Integer "an integer literal", Decimal "a number written with the data format's separators": the value hooks
+    are interpreted on concrete cell texts with the real int() / Decimal(); what Python accepts beyond numbers as data
+    write them (1_0 for 10, PEP 515) is refused."""
+    import decimal as _decimal
+
+    model = ctx.model
+    ctx.res.minimum("O2.10", 1)
+
+    def decimal_hook(interp_, args, kwargs):
+        if len(args) != 1 or not isinstance(args[0], str):
+            raise Undecided("Decimal%r" % (tuple(args),))
+        try:
+            return _decimal.Decimal(args[0])
+        except _decimal.InvalidOperation as error:
+            interp_.raise_("decimal.InvalidOperation", str(error))
+
+    def cell(ch):
+        field_type, text, denotes = ch.choose("cell", NUMBER_SPELLINGS)
+        seen = []
+
+        @stub
+        def validate(interp_, args, kwargs):
+            seen.append(args[1])
+
+        interp = Interp(model, ch, externals={"decimal.Decimal": decimal_hook})
+        if field_type == "Integer":
+            field = Obj(model.cls(FIELDS + "IntegerFieldFormat"), {"_field_name": "n", "valid_range": Obj(model.cls("cutplace.ranges.Range"), {"validate": validate})})
+        else:
+            field = Obj(model.cls(FIELDS + "DecimalFieldFormat"), {
+                "decimal_separator": ".", "thousands_separator": "", "_field_name": "d",
+                "valid_range": Obj(model.cls("cutplace.ranges.DecimalRange"), {"validate": validate})})
+        try:
+            result = interp.call_function(model.func(FIELDS + field_type + "FieldFormat.validated_value"), [field, text], {}, None)
+            outcome = "accepted as %s" % (result,)
+        except AbsRaise as raised:
+            outcome = "raise " + exc_name(raised.value)
+        expected = "raise FieldValueError" if denotes is None else "accepted as %s" % (denotes,)
+        return ("%s cell %r" % (field_type, text), outcome, expected)
+
+    decide(ctx, "O2.10", "number spellings (concrete cells)", FIELDS + "IntegerFieldFormat.validated_value", cell, min_cells=len(NUMBER_SPELLINGS))
+
+
 def rule_range_membership(ctx):
     """O1.3 (shared with C01): Integer and Decimal fields hand the converted value to Range / DecimalRange.validate; that
     these accept exactly the values inside an item - the value itself, not a rounded one, and whatever was validated
@@ -695,5 +763,5 @@ def rule_range_membership(ctx):
 
 from .common import rule_module_state  # noqa: E402
 
-RULES = [rule_integer, rule_decimal, rule_choice_constant_text, rule_datetime, rule_regex_pattern, rule_range_from_length,
+RULES = [rule_integer, rule_decimal, rule_number_spellings, rule_choice_constant_text, rule_datetime, rule_regex_pattern, rule_range_from_length,
          rule_choice_constant_rules, rule_range_membership, rule_module_state]
